@@ -140,6 +140,18 @@ func driveC08(p *Pool, r *evid.Run) {
 		}
 		ex(slow, b)
 		r.Set("slow_roles_"+pl.src, probe[0].Roles)
+		if pl.src == "small" {
+			// a wide transfer (700 files: more than any window of announced entries a sender could keep) under the
+			// same slow-site policies and the ordinary ones: a request may come arbitrarily long after its STAT
+			var wide []Scn
+			for _, pol := range []string{"run", "rr", "recv", "send"} {
+				wide = append(wide, Scn{Kind: "xfer", Src: "fan700", Dst: "empty", Cap: 64, Policy: pol})
+			}
+			for _, role := range probe[0].Roles {
+				wide = append(wide, Scn{Kind: "xfer", Src: "fan700", Dst: "empty", Cap: 64, Policy: "slow:" + role})
+			}
+			ex(wide, 0)
+		}
 	}
 	// the stream discipline on error paths: every hasher / notification call fails in turn (bound 1)
 	var flt []Scn
